@@ -129,7 +129,7 @@ var reflectNeeds = map[string][]string{
 	"Type": {"*valid"}, "Elem": {"Ptr", "Pointer", "Interface"}, "IsNil": {"Ptr", "Pointer", "Map", "Slice", "Chan", "Func", "Interface", "UnsafePointer"},
 	"Int": {"Int", "Int8", "Int16", "Int32", "Int64", "*CanInt"}, "Float": {"Float32", "Float64", "*CanFloat"}, "Bool": {"Bool"},
 	"Len": {"Slice", "Array", "Map", "String", "Chan"}, "Index": {"Slice", "Array", "String"},
-	"MapRange": {"Map"}, "MapKeys": {"Map"}, "MapIndex": {"Map"}, "Bytes": {"Slice", "Array"},
+	"MapRange": {"Map"}, "MapKeys": {"Map"}, "MapIndex": {"Map"}, "Bytes": {"Slice"}, // an array must also be addressable (CanAddr), which a value held in an interface never is
 }
 
 func runR043(c *core.Ctx) {
